@@ -391,6 +391,26 @@ func execute(c *Ctx, cases []Case, st *runState, on func(cs *Case, r *Res)) {
 			batch = append(batch, cases[i])
 		}
 		res := RunCases(cfg, batch)
+		// a timeout must reproduce with the machine less crowded (4 children) before it counts
+		var again []int
+		for i := range batch {
+			if res[i].Status == "timeout" || res[i].Ms > watchdog.Milliseconds() {
+				again = append(again, i)
+			}
+		}
+		if len(again) > 0 {
+			cs2 := make([]Case, len(again))
+			for k, i := range again {
+				cs2[k] = batch[i]
+			}
+			r2 := RunCases(runCfg{Workers: min(4, c.Work), Timeout: watchdog, ASLimit: asLimit}, cs2)
+			for k, i := range again {
+				res[i] = r2[k]
+			}
+		}
+		if os.Getenv("PARSERS_VERBOSE") != "" {
+			fmt.Fprintf(os.Stderr, "[parsers] wave %d..%d of %d done, %d timeouts re-run, %d signatures so far\n", lo, hi, len(cases), len(again), len(st.hits))
+		}
 		for i := range batch {
 			if res[i].Status == "timeout" {
 				st.timeouts[batch[i].Entry+"|"+batch[i].Mut+"|"+batch[i].Seed]++
